@@ -7,7 +7,7 @@ from pdfminer.casting import safe_int
 from pdfminer.pdfexceptions import PDFException
 from pdfminer.pdftypes import PDFObjRef, PDFStream, dict_value, int_value
 from pdfminer.psexceptions import PSEOF
-from pdfminer.psparser import KWD, PSKeyword, PSStackParser
+from pdfminer.psparser import KWD, PSKeyword, PSStackEntry, PSStackParser
 
 if TYPE_CHECKING:
     from pdfminer.pdfdocument import PDFDocument
@@ -147,7 +147,24 @@ class PDFStreamParser(PDFParser):
         PDFParser.__init__(self, BytesIO(data))
 
     def flush(self) -> None:
-        self.add_results(*self.popall())
+        # Up to two trailing integers are held back: they may turn out to be
+        # the operands of a following "R" (a top-level indirect reference).
+        stack = self.curstack
+        n = len(stack)
+        while n > 0 and len(stack) - n < 2 and type(stack[n - 1][1]) is int:
+            n -= 1
+        self.curstack = stack[n:]
+        self.add_results(*stack[:n])
+
+    def nextobject(self) -> PSStackEntry[Union[PSKeyword, PDFStream, PDFObjRef, None]]:
+        try:
+            return super().nextobject()
+        except PSEOF:
+            # end of data: integers still held back by flush() are results
+            if self.context or not self.curstack:
+                raise
+            self.add_results(*self.popall())
+            return self.results.pop(0)
 
     KEYWORD_OBJ = KWD(b"obj")
 
